@@ -15,8 +15,8 @@ import Sqroot.Proofs.Print
 namespace Sqroot.Props.C18
 open Sqroot.Model Sqroot.Proofs
 
-/-- root managers, block size, default precisions, exponent rule, label width, gap loop: the
-generated definitions of v1, v2 and v3 are identical -/
+/-- root managers, block size, default precisions, exponent rule, gap loop: the generated
+definitions of v1, v2 and v3 are identical -/
 theorem generated_definitions_agree :
     sqrtMgr .v1 = sqrtMgr .v3 ∧ sqrtMgr .v2 = sqrtMgr .v3 ∧
     cubeMgr .v1 = cubeMgr .v3 ∧ cubeMgr .v2 = cubeMgr .v3 ∧
@@ -25,11 +25,16 @@ theorem generated_definitions_agree :
     Gen.V1.gPrecision = Gen.V3.gPrecision ∧ Gen.V2.gPrecision = Gen.V3.gPrecision ∧
     Gen.V1.kMaxChunks = Gen.V3.kMaxChunks ∧ Gen.V2.kMaxChunks = Gen.V3.kMaxChunks ∧
     Gen.V1.bigExponent = Gen.V3.bigExponent ∧ Gen.V2.bigExponent = Gen.V3.bigExponent ∧
-    Gen.V1.digitCountWidth = Gen.V3.digitCountWidth ∧ Gen.V2.digitCountWidth = Gen.V3.digitCountWidth ∧
     Gen.V1.newFormatSpec = Gen.V2.newFormatSpec ∧
     Gen.V1.gapLoopChecksErr = Gen.V3.gapLoopChecksErr ∧ Gen.V2.gapLoopChecksErr = Gen.V3.gapLoopChecksErr := by
   repeat' apply And.intro
   all_goals rfl
+
+/-- the label width: the three generated functions compute the same width for all arguments
+(each equals the documented `Spec.labelWidth`; a rewrite of one copy's arithmetic keeps this) -/
+theorem label_width_agrees (v : Version) (s : PSettings) (m : Int) :
+    digitCountWidthOf v s m = digitCountWidthOf .v3 s m := by
+  rw [Prt.width_eq, Prt.width_eq]
 
 /-- hence identical digits and exponents of roots, for every radicand and depth -/
 theorem root_digits_agree (v : Version) (num den k : Nat) :
